@@ -1,6 +1,6 @@
 (** C12 — Results do not depend on GOMAXPROCS.
     Only statements, each closed by [exact <lemma>] and followed by [Print Assumptions]. *)
-From Coq Require Import List ZArith String Permutation.
+From Coq Require Import String List ZArith Permutation.
 From Webp Require Import Conc.ConcPartition Conc.ConcPartitionProofs.
 From WebpGen Require Sites Consts.
 Import ListNotations.
